@@ -870,3 +870,6 @@ func (b *TxBuilder) FundV2(txn *types.V2Transaction, need types.Currency) bool {
 
 // CommitV2 validates txn on the builder's mid-state and records it.
 func (b *TxBuilder) CommitV2(kind string, txn types.V2Transaction) bool { return b.commitV2(kind, txn) }
+
+// MarkUsed makes the builder consider a confirmed siacoin element as spent.
+func (b *TxBuilder) MarkUsed(id types.SiacoinOutputID) { b.usedSC[id] = true }
